@@ -92,6 +92,9 @@ class C05(Prop):
     def models(self):
         for n in (1, 2):
             self.model("MC_StabSem", "MC_StabSem_c05_n%d.cfg" % n, name="stabsem_n%d" % n, expect_distinct=(7 if n == 1 else 91))
+        self.model("MC_Tableau", "MC_Tableau_n1.cfg", name="tableau_impl_n1", expect_distinct=48)
+        if self.tier == "thorough":
+            self.model("MC_Tableau", "MC_Tableau_n2.cfg", name="tableau_impl_n2", expect_distinct=34560, timeout=3000)
         self.maps = {}
         for n in (1, 2):
             pf = "%s/maps_n%d.txt" % (self.wd, n)
